@@ -376,6 +376,26 @@ def castCheck (items : List (Nat × Ty)) (fields : Fields) : Except Err Unit :=
     | none => .error .unknown
     | some v => if v.fitsType t then castCheck r fields else .error .unknown
 
+/-- the value check of `Update`: the older source compares the whole (sorted) value list when the
+`from` literal gives any value; the newer one only the fields the literal gives (first stored field
+of that name, like `fact_match`).  Which one the source has is generated (`updateGivenOnly`). -/
+def updateMismatch (givenOnly : Bool) (fromVals replacedVals : Fields) : Bool :=
+  if givenOnly then
+    !(fromVals.toList.all (fun fv => match replacedVals.get? fv.1 with
+      | some w => w == fv.2
+      | none => false))
+  else !fromVals.isEmpty && !(sortByKey replacedVals.toList == sortByKey fromVals.toList)
+
+/-- rows a `QueryStart` iterator will deliver to `QueryNext`: the newer source remembers the query
+literal and skips rows that do not `fact_match` it (error rows still surface); generated flag
+`queryNextFilters`. -/
+def queryRows (filters : Bool) (qkeys : List (Nat × HV)) (qvals : Fields) (rows : List Row) : List Row :=
+  if filters then
+    rows.filter (fun r => match r with
+      | none => true
+      | some (k, v) => factMatch qkeys qvals k v)
+  else rows
+
 def wrap (t : WrapType) (v : Value) : Value :=
   match t with
   | .Ok => .ok v
@@ -698,7 +718,7 @@ def exec (m : Machine) (pc : Nat) (instr : Instr) : M Ctl :=
     | [] => throw .invalidFact
     | none :: _ => throw .io
     | some (_, replacedVals) :: _ =>
-      if !fromVals.isEmpty && !(sortByKey replacedVals.toList == sortByKey fromVals.toList) then
+      if updateMismatch updateGivenOnly fromVals replacedVals then
         throw .invalidFact
       else do
         ioUnit
@@ -735,7 +755,7 @@ def exec (m : Machine) (pc : Nat) (instr : Instr) : M Ctl :=
     let (name, keys, vals) ← popFact
     if validateFactLiteral m.factDefs name keys vals then do
       let rows ← ioQuery
-      pushIter rows
+      pushIter (queryRows queryNextFilters keys vals rows)
       pure .next
     else throw .invalidSchema
   | .QueryNext id => do
